@@ -154,6 +154,8 @@ static LOG: Mutex<Vec<Vec<u64>>> = Mutex::new(Vec::new());
 /// what the operation a worker is executing does at yield point 10: 1 = rebuild_interest_cache (Rebuild, Reload), 2 = register_dispatch (New)
 static CUR_W: [std::sync::atomic::AtomicU8; 8] = [const { std::sync::atomic::AtomicU8::new(0) }; 8];
 /// lock kinds as calibrated on the repository under check (true = exclusive): rebuild_interest_cache, register_dispatch, register
+/// Linux thread ids of the workers (0 = unknown): used to see whether a released thread sleeps in a futex wait (= blocked on a lock)
+static TIDS: [std::sync::atomic::AtomicU64; 8] = [const { std::sync::atomic::AtomicU64::new(0) }; 8];
 static EXCL: [AtomicBool; 3] = [AtomicBool::new(true), AtomicBool::new(true), AtomicBool::new(false)];
 fn log(e: Vec<u64>) {
     LOG.lock().unwrap().push(e);
@@ -470,8 +472,24 @@ fn out(line: String) {
 
 enum Msg { Do(Op), Phase1 }
 
+/// is the OS thread sleeping in a futex wait right now?  (/proc/self/task/<tid>/syscall starts with the futex syscall number)
+fn in_futex_wait(t: usize) -> bool {
+    let tid = if t < TIDS.len() { TIDS[t].load(Ordering::SeqCst) } else { 0 };
+    if tid == 0 { return false; }
+    let nr = if cfg!(target_arch = "x86_64") { "202" } else if cfg!(target_arch = "aarch64") { "98" } else { return false };
+    match std::fs::read_to_string(format!("/proc/self/task/{}/syscall", tid)) {
+        Ok(s) => s.split_whitespace().next() == Some(nr),
+        Err(_) => false,
+    }
+}
+
 fn worker(t: usize, prog: Vec<Op>, rx: Receiver<Msg>, done: Sender<usize>) {
     TIDX.with(|x| x.set(t as u64));
+    if let Ok(l) = std::fs::read_link("/proc/thread-self") {
+        if let Some(tid) = l.file_name().and_then(|x| x.to_str()).and_then(|x| x.parse::<u64>().ok()) {
+            if t < TIDS.len() { TIDS[t].store(tid, Ordering::SeqCst); }
+        }
+    }
     // phase 0: quiescent set-up ops, until the controller starts phase 1
     loop {
         match rx.recv() {
@@ -614,6 +632,28 @@ fn main() {
             g = s.cv.wait_timeout(g, deadline - now).unwrap().0;
         }
     };
+    // like settle, but also recognises a thread that is blocked on a lock in the OS: status Running and steadily (12 polls, >= 60 ms)
+    // sleeping in a futex wait.  Some(None) = blocked.
+    let settle_b = |t: usize| -> Option<Option<Status>> {
+        let deadline = Instant::now() + WAIT;
+        let mut steady = 0u32;
+        let mut g = s.m.lock().unwrap();
+        loop {
+            match g.status[t] {
+                Status::Running => {}
+                st => return Some(Some(st)),
+            }
+            let now = Instant::now();
+            if now >= deadline { return None; }
+            g = s.cv.wait_timeout(g, Duration::from_millis(5)).unwrap().0;
+            if g.status[t] == Status::Running {
+                drop(g);
+                if in_futex_wait(t) { steady += 1 } else { steady = 0 }
+                if steady >= 12 { return Some(None); }
+                g = s.m.lock().unwrap();
+            }
+        }
+    };
     let hang = |t: usize, i: i64, phase: u8| -> ! {
         let g = s.m.lock().unwrap();
         let st: Vec<String> = g.status.iter().map(|x| format!("{:?}", x)).collect();
@@ -699,10 +739,17 @@ fn main() {
         }
         let mut ys: Vec<u32> = Vec::with_capacity(sched.len());
         let (mut sh_writer, mut sh_readers): (Option<usize>, i64) = (None, 0);
-        for (i, &t) in sched.iter().enumerate() {
+        // threads released into a lock acquisition that did not succeed: asleep in the OS until the lock is free
+        let mut blocked: Vec<bool> = vec![false; nthreads];
+        for (i, &e) in sched.iter().enumerate() {
+            // an entry 100 + t releases thread t REGARDLESS of the lock state (it may then block in the OS): oracle-only schedules
+            let (t, forced) = if e >= 100 { (e - 100, true) } else { (e, false) };
             if t >= nthreads { ys.push(998); continue; }
             let st = s.m.lock().unwrap().status[t];
-            // every worker is parked here, so the probe sees exactly the locks held by parked threads
+            if blocked[t] {
+                if st == Status::Running { ys.push(998); continue; }
+                blocked[t] = false;      // the lock was freed meanwhile; the thread ran on to its next yield point
+            }
             let (can_read, can_write) = lock_probe().unwrap_or((sh_writer.is_none(), sh_writer.is_none() && sh_readers == 0));
             let wants_excl = |t: usize, id: u32| -> bool {
                 if id == 20 { EXCL[2].load(Ordering::SeqCst) }
@@ -711,7 +758,7 @@ fn main() {
             };
             let runnable = match st {
                 Status::Done | Status::Running => false,
-                Status::Parked(id @ (10 | 20)) => if wants_excl(t, id) { can_write } else { can_read },
+                Status::Parked(id @ (10 | 20)) => forced || if wants_excl(t, id) { can_write } else { can_read },
                 Status::Parked(_) => true,
             };
             if !runnable { ys.push(998); continue; }
@@ -726,10 +773,31 @@ fn main() {
                 g.go[t] = true;
                 s.cv.notify_all();
             }
-            match settle(t) {
+            match settle_b(t) {
                 None => hang(t, i as i64, 1),
-                Some(Status::Parked(id)) => ys.push(id),
-                Some(_) => ys.push(0),
+                Some(None) => { blocked[t] = true; ys.push(996); }
+                Some(Some(Status::Parked(id))) => ys.push(id),
+                Some(Some(_)) => ys.push(0),
+            }
+            // threads that were blocked may have been woken by this step: wait until each is parked again, done, or asleep again
+            for u in 0..nthreads {
+                if u != t && blocked[u] {
+                    match settle_b(u) { None => hang(u, i as i64, 1), Some(None) => {}, Some(Some(_)) => {} }
+                }
+            }
+            // every unfinished thread asleep on a lock, nobody left to release one: a deadlock
+            let all_stuck = {
+                let g = s.m.lock().unwrap();
+                (0..nthreads).all(|u| g.status[u] == Status::Done || (blocked[u] && g.status[u] == Status::Running))
+                    && (0..nthreads).any(|u| g.status[u] != Status::Done)
+            };
+            if all_stuck {
+                out(format!("{{\"k\":\"yields\",\"y\":[{}]}}", ys.iter().map(|x| x.to_string()).collect::<Vec<_>>().join(",")));
+                let g = s.m.lock().unwrap();
+                let stv: Vec<String> = g.status.iter().map(|x| format!("{:?}", x)).collect();
+                out(format!("{{\"k\":\"hang\",\"t\":{},\"after_entry\":{},\"phase\":1,\"deadlock\":true,\"status\":{}}}", t, i,
+                            jstr(&format!("every unfinished thread is asleep on a lock: {}", stv.join(" ")))));
+                std::process::exit(3)
             }
         }
         let all_done = s.m.lock().unwrap().status.iter().all(|x| *x == Status::Done);
